@@ -1,4 +1,5 @@
 import Bandit.Proofs.Total
+import Bandit.Proofs.Total2
 import Bandit.Proofs.Nosec
 import Props.C14
 /-!
@@ -8,6 +9,12 @@ import Props.C14
 modelled checks return `.ok` on **every** node shape (after the /repo fixes c28be0a, 24ed4b7, 94606d1).
 The model's knowledge of which Python operations raise is hand-written; the crash monitor of
 `harness/props/c06.py` closes that gap empirically on every run.
+
+Layout: evaluators; one `bNNN_total` per plugin decision function, each under the CPython shape facts
+and the settings facts it needs and nothing more; `checks_return_visit` / `checks_return_file` (every
+check of the test set returns in the environment `runVisit` / `scanFile` builds); the headline
+`scan_no_crash`; non-vacuity examples.  `TreeShapeOK`, `configOK`, `keyTablesOK` and the helper lemmas
+live in `Bandit/Proofs/Total2.lean`.
 -/
 namespace Props.C06
 open Bandit Bandit.Plugins
@@ -210,5 +217,609 @@ theorem visited_has_parent (root : Node) : ∀ v ∈ visits root, v.anc ≠ [] :
       · exact ih2 anc l ha v h
   intro v hv
   exact key root [] v hv
+
+/-! ## Per-check totality: the remaining plugins
+
+Each theorem assumes exactly what the situation provides: the node is of the kind the check is
+registered for and has the fields CPython gives that kind (`e.call? = some c`: a `Call` with its
+`func`; `kid? "args" = some _`: a `FunctionDef` with its `arguments`; a string constant with a
+parent), and the plugin's settings have the keys its `gen_config` emits. -/
+
+set_option linter.unusedSimpArgs false
+
+/-! ### `Plugins/Misc.lean` -/
+
+/-- B101: the settings are a mapping (`config.get("skips", [])`) -/
+theorem b101_total (kvs : List (Str × CfgVal)) (fileName : Str) (e : Env) :
+    ∃ r, b101 (.map kvs) fileName e = .ok r := by
+  unfold b101
+  simp only []
+  split <;> exact ⟨_, rfl⟩
+
+/-- B110: the settings carry `check_typed_exception` (nothing is asked of the handler node: a missing `body` reads as empty) -/
+theorem b110_total (cfg : CfgVal) (e : Env) (hcfg : (cfg.get? "check_typed_exception").isSome = true) :
+    ∃ r, b110 cfg e = .ok r := exceptHandler_total _ _ cfg e hcfg
+
+/-- B112: as B110 -/
+theorem b112_total (cfg : CfgVal) (e : Env) (hcfg : (cfg.get? "check_typed_exception").isSome = true) :
+    ∃ r, b112 cfg e = .ok r := exceptHandler_total _ _ cfg e hcfg
+
+/-- B107: a `FunctionDef` has its `arguments` node -/
+theorem b107_total (e : Env) (args : Node) (ha : e.node.kid? "args" = some args) : ∃ r, b107 e = .ok r := by
+  unfold b107
+  simp only [ha]
+  exact b107_go_total _
+
+/-- B108: the node is a string constant (the check is registered for `Str`); any settings, a missing `tmp_dirs` falls back to the defaults -/
+theorem b108_total (cfg : CfgVal) (e : Env) (s : Str) (hs : e.node.strConst? = some s) :
+    ∃ r, b108 cfg e = .ok r := by
+  unfold b108
+  simp only [hs]
+  ok_split
+
+/-- B105: the node is a string constant with a parent; a `Subscript` parent has a parent of its own (it is an
+expression, not the module), a `Compare` parent has `left` and at least one comparator (CPython's parser
+never builds a `Compare` without one) -/
+theorem b105_total (e : Env) (s : Str) (par : Node)
+    (hs : e.node.strConst? = some s) (hp : e.v.parent? = some par)
+    (hsub : par.isKind "Subscript" = true → e.v.grandparent?.isSome = true)
+    (hcmp : par.isKind "Compare" = true →
+      (par.kid? "left").isSome = true ∧ (par.kidList "comparators").head?.isSome = true) :
+    ∃ r, b105 e = .ok r := by
+  unfold b105
+  simp only [hs, hp, bind, Except.bind, pure, Except.pure]
+  by_cases h1 : par.isKind "Assign" = true
+  · simp only [h1, if_true]; ok_split
+  · simp only [h1, Bool.false_eq_true, if_false]
+    by_cases h2 : (par.isKind "Subscript" && isCandidate s) = true
+    · simp only [h2, if_true]
+      have h2' : par.isKind "Subscript" = true := by
+        simp only [Bool.and_eq_true] at h2; exact h2.1
+      obtain ⟨g, hg⟩ := Option.isSome_iff_exists.mp (hsub h2')
+      simp only [hg]
+      ok_split
+    · simp only [h2, Bool.false_eq_true, if_false]
+      by_cases h3 : par.isKind "Compare" = true
+      · obtain ⟨hl, hc⟩ := hcmp h3
+        obtain ⟨l, hl⟩ := Option.isSome_iff_exists.mp hl
+        obtain ⟨c0, hc⟩ := Option.isSome_iff_exists.mp hc
+        simp only [h3, if_true, hl, hc]
+        ok_split
+      · simp only [h3, Bool.false_eq_true, if_false]
+        exact ⟨_, rfl⟩
+
+/-! ### `Plugins/Crypto.lean` -/
+
+/-- B113: a call -/
+theorem b113_total (T : CryptoTables) (e : Env) (c : CallView) (hc : e.call? = some c) : ∃ r, b113 T e = .ok r := by
+  obtain ⟨b1, h1⟩ := checkArg_total c "timeout" [.none]
+  obtain ⟨b2, h2⟩ := checkArg_total c "timeout" [.str "None".toList]
+  unfold b113
+  simp only [hc, h1, h2, bind, Except.bind, pure, Except.pure]
+  ok_split
+
+/-- B324: a call -/
+theorem b324_total (T : CryptoTables) (e : Env) (c : CallView) (hc : e.call? = some c) : ∃ r, b324 T e = .ok r := by
+  obtain ⟨as, ha⟩ := callArgs_total c
+  obtain ⟨kws, hk⟩ := callKeywords_total c
+  unfold b324
+  simp only [hc, bind, Except.bind, pure, Except.pure, b324Hashlib_ok T c as kws _ ha hk, b324Crypt_ok T c as kws _ ha hk]
+  ok_split
+
+/-- B501: a call -/
+theorem b501_total (T : CryptoTables) (e : Env) (c : CallView) (hc : e.call? = some c) : ∃ r, b501 T e = .ok r := by
+  obtain ⟨b1, h1⟩ := checkArg_total c "verify" [.str "False".toList]
+  unfold b501
+  simp only [hc, h1, bind, Except.bind, pure, Except.pure]
+  ok_split
+
+/-- B502: a call; the settings are a mapping with `bad_protocol_versions` (any value: a non-list is wrapped) -/
+theorem b502_total (cfg : CfgVal) (e : Env) (c : CallView) (bad : CfgVal) (hc : e.call? = some c)
+    (hcfg : cfgIndex cfg "bad_protocol_versions" = .ok bad) : ∃ r, b502 cfg e = .ok r := by
+  obtain ⟨b1, h1⟩ := checkArgCfg_total c "ssl_version" bad
+  obtain ⟨b2, h2⟩ := checkArgCfg_total c "method" bad
+  unfold b502
+  simp only [hc, hcfg, h1, h2, bind, Except.bind, pure, Except.pure]
+  ok_split
+
+/-- B503 (run on `FunctionDef`): the settings are a mapping whose `bad_protocol_versions` is a container
+(`x in 5` would raise `TypeError`); a function without `args` has no defaults -/
+theorem b503_total (cfg : CfgVal) (e : Env) (bad : CfgVal)
+    (hcfg : cfgIndex cfg "bad_protocol_versions" = .ok bad) (hb : CfgVal.isContainer bad = true) :
+    ∃ r, b503 cfg e = .ok r := by
+  unfold b503
+  simp only [hcfg, bind, Except.bind]
+  exact b503_go_total e bad hb _
+
+/-- B504: a call -/
+theorem b504_total (e : Env) (c : CallView) (hc : e.call? = some c) : ∃ r, b504 e = .ok r := by
+  obtain ⟨b1, h1⟩ := checkArg_total c "ssl_version" [.none]
+  unfold b504
+  simp only [hc, h1, bind, Except.bind, pure, Except.pure]
+  ok_split
+
+/-- B507: a call -/
+theorem b507_total (e : Env) (c : CallView) (hc : e.call? = some c) : ∃ r, b507 e = .ok r := by
+  unfold b507
+  simp only [hc, bind, Except.bind, pure, Except.pure]
+  ok_split
+
+/-- B508: a call -/
+theorem b508_total (e : Env) (c : CallView) (hc : e.call? = some c) : ∃ r, b508 e = .ok r := by
+  obtain ⟨b1, h1⟩ := checkArg_total c "mpModel" [.int 0]
+  obtain ⟨b2, h2⟩ := checkArg_total c "mpModel" [.int 1]
+  unfold b508
+  simp only [hc, h1, h2, bind, Except.bind, pure, Except.pure]
+  ok_split
+
+/-- B509: a call -/
+theorem b509_total (e : Env) (c : CallView) (hc : e.call? = some c) : ∃ r, b509 e = .ok r := by
+  unfold b509
+  simp only [hc, bind, Except.bind, pure, Except.pure]
+  ok_split
+
+/-- B505: a call; the six thresholds are configured integers; the in-module key tables are closed
+(`keyTablesOK`, true of the tables regenerated from /repo: `gen_keyTablesOK`) -/
+theorem b505_total (T : CryptoTables) (cfg : CfgVal) (t : Spec.Crypto.Thresholds) (e : Env) (c : CallView)
+    (hc : e.call? = some c) (hT : keyTablesOK T = true) (ht : HasThresholds cfg t) : ∃ r, Plugins.b505 T cfg e = .ok r := by
+  obtain ⟨r1, h1⟩ := b505Cio_total T cfg t e c hT ht
+  obtain ⟨r2, h2⟩ := b505Pyc_total T cfg t e c hT ht
+  unfold Plugins.b505
+  simp only [hc, h1, h2, bind, Except.bind, pure, Except.pure]
+  ok_split
+
+/-- the key tables extracted from /repo are closed -/
+theorem gen_keyTablesOK : keyTablesOK genCryptoTables = true := by decide +kernel
+
+/-! ### `Plugins/Shell.lean`, `Plugins/Inject.lean`, `Plugins/Trojan.lean` -/
+
+/-- B607: a call; the three lists of `shell_injection` are configured -/
+theorem b607_total (cfg : ShellCfg) (e : Env) (c : CallView)
+    (h2 : cfg.hasSubprocess = true) (h3 : cfg.hasShell = true) (h4 : cfg.hasNoShell = true)
+    (hc : e.call? = some c) : ∃ r, b607 cfg e = .ok r := by
+  obtain ⟨as, ha⟩ := callArgs_total c
+  have hl : as.length = c.args.length := Props.C14.args_len.List.length_mapM_except (f := attrOrLiteral) ha
+  unfold b607
+  simp only [hc, h2, h3, h4, ha, hl, bind, Except.bind, pure, Except.pure, Bool.not_true, Bool.and_false,
+    Bool.false_eq_true, if_false]
+  cases hargs : c.args with
+  | nil => simp only [List.length_nil, Nat.lt_irrefl, gt_iff_lt, if_false]; ok_split
+  | cons a rest => simp only []; ok_split
+
+/-- B609: a call (missing lists make the check return early) -/
+theorem b609_total (cfg : ShellCfg) (e : Env) (c : CallView) (hc : e.call? = some c) : ∃ r, b609 cfg e = .ok r := by
+  obtain ⟨b1, h1⟩ := checkArg_total c "shell" [.str "True".toList]
+  obtain ⟨a0, h0⟩ := argAt_total c 0
+  unfold b609
+  simp only [hc, h1, h0, bind, Except.bind, pure, Except.pure]
+  ok_split
+
+/-- B610: a call -/
+theorem b610_total (T : InjTables) (e : Env) (c : CallView) (hc : e.call? = some c) : ∃ r, b610 T e = .ok r := by
+  unfold b610
+  simp only [hc, bind, Except.bind, pure, Except.pure]
+  ok_split
+
+/-- B611: a call (`RawSQL()` without arguments included) -/
+theorem b611_total (e : Env) (c : CallView) (hc : e.call? = some c) : ∃ r, b611 e = .ok r := by
+  unfold b611
+  simp only [hc, bind, Except.bind, pure, Except.pure]
+  ok_split
+
+/-- B701: any node -/
+theorem b701_total (e : Env) : ∃ r, b701 e = .ok r := by
+  unfold b701
+  ok_split
+
+/-- B704: a call; the settings are a mapping whose `extend_markup_names` / `allowed_calls`, when present, are containers -/
+theorem b704_total (T : InjTables) (kvs : List (Str × CfgVal)) (e : Env) (c : CallView) (hc : e.call? = some c)
+    (h1 : memberOK ((CfgVal.map kvs).get? "extend_markup_names") = true)
+    (h2 : memberOK ((CfgVal.map kvs).get? "allowed_calls") = true) :
+    ∃ r, b704 T (.map kvs) e = .ok r := by
+  obtain ⟨m1, hm1⟩ := cfgMember_total _ e.qual h1
+  unfold b704
+  simp only [hc, hm1, bind, Except.bind, pure, Except.pure, Bool.not_true, Bool.false_eq_true, if_false]
+  cases hargs : c.args with
+  | nil => simp only []; ok_split
+  | cons a rest =>
+    simp only []
+    cases hcall : a.asCall? with
+    | none => simp only []; ok_split
+    | some c' =>
+      obtain ⟨m2, hm2⟩ := cfgMember_total _ (callName e.st.aliases c') h2
+      simp only [hm2]
+      ok_split
+
+/-- B506: a call -/
+theorem b506_total (e : Env) (c : CallView) (hc : e.call? = some c) : ∃ r, b506 e = .ok r := by
+  obtain ⟨b1, h1⟩ := checkArg_total c "Loader" [.str "SafeLoader".toList]
+  obtain ⟨b2, h2⟩ := checkArg_total c "Loader" [.str "CSafeLoader".toList]
+  obtain ⟨p1, hp⟩ := argAt_total c 1
+  unfold b506
+  simp only [hc, h1, h2, hp, bind, Except.bind, pure, Except.pure]
+  ok_split
+
+/-- B614: a call -/
+theorem b614_total (e : Env) (c : CallView) (hc : e.call? = some c) : ∃ r, b614 e = .ok r := by
+  obtain ⟨w, hw⟩ := argValue_total c "weights_only"
+  unfold b614
+  simp only [hc, hw, bind, Except.bind, pure, Except.pure]
+  ok_split
+
+/-- B202: a call (`members` is only classified when it is a keyword) -/
+theorem b202_total (e : Env) (c : CallView) (hc : e.call? = some c) : ∃ r, b202 e = .ok r := by
+  obtain ⟨kws, hk⟩ := callKeywords_total c
+  have hf : c.hasKw "filter" = .ok (CallView.lookupKw kws "filter").isSome := by
+    simp [CallView.hasKw, hk, bind, Except.bind, pure, Except.pure]
+  have hm : c.hasKw "members" = .ok (CallView.lookupKw kws "members").isSome := by
+    simp [CallView.hasKw, hk, bind, Except.bind, pure, Except.pure]
+  have hmem : (CallView.lookupKw kws "members").isSome = true → ∃ b, membersIsFunction c = .ok b := by
+    intro h
+    have h' := kw_isSome hk "members"
+    simp only [Spec.Crypto.kw] at h'
+    rw [h'] at h
+    obtain ⟨k, hkf⟩ := Option.isSome_iff_exists.mp (List.find?_isSome.mpr (List.any_eq_true.mp h))
+    unfold membersIsFunction
+    simp only [hkf]
+    ok_split
+  unfold b202
+  simp only [hc, hf, hm, bind, Except.bind, pure, Except.pure]
+  split
+  · split
+    · exact ⟨_, rfl⟩
+    · split
+      · rename_i hmm
+        obtain ⟨b, hb⟩ := hmem hmm
+        simp only [hb]
+        ok_split
+      · exact ⟨_, rfl⟩
+  · exact ⟨_, rfl⟩
+
+/-- B613 (file level): any text -/
+theorem b613_total (table : List Char) (e : Env) : ∃ r, b613 table e = .ok r := by
+  unfold b613
+  ok_split
+
+/-- B608 (run on `Str`): a string constant with a parent; below an `Attribute` parent (`"…".format`) there
+are two more ancestors, below a `JoinedStr` parent one more — expressions are never children of the module -/
+theorem b608_total (T : InjTables) (e : Env) (s : Str) (par : Node)
+    (hs : e.node.strConst? = some s) (hp : e.v.parent? = some par)
+    (hattr : par.isKind "Attribute" = true → (e.v.anc[2]?).isSome = true)
+    (hjoin : par.isKind "JoinedStr" = true → (e.v.anc[1]?).isSome = true) :
+    ∃ r, b608 T e = .ok r := by
+  obtain ⟨r, hr⟩ := evaluateAst_total T e s par hs hp hattr hjoin
+  unfold b608
+  simp only [hr, bind, Except.bind, pure, Except.pure]
+  ok_split
+
+/-! ### `Plugins/DjangoXss.lean` -/
+
+/-- **B703 returns, with the budget the model gives it** (`fuelFor`: size of the enclosing scope plus
+its largest line number): no Python exception and no `RecursionError`.  Hypotheses: the node is a
+call; the enclosing `Module`/`FunctionDef` exists and its statements carry line numbers; `Call` and
+`BinOp` nodes at and below the call are positioned, on lines `≤ B`, and `B` is below the budget
+(`Bandit.b703_facts` derives all of this for every visited call of a `TreeShapeOK` tree). -/
+theorem b703_total (T : InjTables) (e : Env) (c : CallView) (B : Nat) (p : Node)
+    (hc : e.call? = some c) (hp : DjangoXss.enclosing e.v.anc = some p)
+    (hb : ∀ s ∈ p.kidList "body", s.line?.isSome = true)
+    (hd : e.node.deepAll (DjangoXss.exprP B) = true) (hB : B < DjangoXss.fuelFor e.v.anc) :
+    ∃ r, DjangoXss.b703 T e = .ok r :=
+  DjangoXss.b703With_total T _ e c B p hc hp hb hd hB
+
+/-- **B703 with an arbitrary recursion budget**: under the same shape facts the only failure left is the
+budget running out (`Crash.other`, the model's stand-in for `RecursionError`) — no `AttributeError`,
+`IndexError`, … from `check_risk`, `evaluate_var`, `evaluate_call`, `transform2call`, `is_assigned`.
+(`b703_total` shows the model's own budget `fuelFor` is never exhausted.  CPython's real budget is the
+interpreter's recursion limit, which the model does not know: a chain of about a thousand one-line
+re-assignments `x1 = x0`, `x2 = x1`, … before `mark_safe(x999)` needs as many nested `evaluate_var`
+activations, within `fuelFor` but beyond the default `sys.getrecursionlimit()`.) -/
+theorem b703_only_recursion_error (T : InjTables) (fuel : Env → Nat) (e : Env) (c : CallView) (B : Nat) (p : Node)
+    (hc : e.call? = some c) (hp : DjangoXss.enclosing e.v.anc = some p)
+    (hb : ∀ s ∈ p.kidList "body", s.line?.isSome = true)
+    (hd : e.node.deepAll (DjangoXss.exprP B) = true) :
+    (∃ r, DjangoXss.b703With T fuel e = .ok r) ∨ DjangoXss.b703With T fuel e = .error .other :=
+  DjangoXss.b703With_ok_or_recursion T fuel e c B p hc hp hb hd
+
+/-! ## Every registered check returns on every visit of a well-shaped tree -/
+
+section Groups
+variable {env : Env} {kind : Str} (ef : EnvFacts env kind)
+include ef
+
+theorem misc_return (pc : PluginCfg) (fileName : Str) (hcfg : ConfigFacts pc) :
+    ∀ c ∈ miscChecks pc fileName, c.kinds.contains kind = true → Returns c env := by
+  intro c hc hk
+  have pos : ∀ k : String, kind = k.toList → k.toList ∈ ["Call".toList, "Str".toList, "FunctionDef".toList,
+      "ExceptHandler".toList, "Assert".toList, "File".toList] → env.ctx.lineno.isSome = true ∧ env.ctx.col.isSome = true :=
+    fun k h hm => ef.posd (by rw [h]; exact hm)
+  simp only [miscChecks, List.mem_cons, List.mem_nil_iff, or_false] at hc
+  rcases hc with rfl | rfl | rfl | rfl | rfl | rfl | rfl | rfl | rfl | rfl | rfl | rfl | rfl | rfl <;>
+    have hk' := kinds_single hk
+  · obtain ⟨kvs, hm⟩ := hcfg.assertUsed
+    rw [hm]
+    exact plugin_returns (b101_total kvs fileName _) (pos "Assert" hk' (by simp))
+  · exact plugin_returns (simple_checks_total _).1 (pos "Call" hk' (by simp))
+  · obtain ⟨c, hc⟩ := ef.call hk'
+    exact plugin_returns (b103_total _ _ (blind_call hc)) (pos "Call" hk' (by simp))
+  · exact plugin_returns (simple_checks_total _).2.1 (pos "Str" hk' (by simp))
+  · obtain ⟨⟨s, hs⟩, ⟨p, hp⟩, hsub, hcmp, _, _⟩ := (ef.str hk').erase
+    exact plugin_returns (b105_total env.blind s p hs hp (hsub p hp) (hcmp p hp)) (pos "Str" hk' (by simp))
+  · obtain ⟨c, hc⟩ := ef.call hk'
+    exact plugin_returns (b106_total _ _ (blind_call hc)) (pos "Call" hk' (by simp))
+  · obtain ⟨a, ha⟩ := ef.fn hk'
+    refine plugin_returns (b107_total env.blind a.erase ?_) (pos "FunctionDef" hk' (by simp))
+    show env.v.erase.node.kid? "args" = _
+    simp only [Visit.erase, Node.kid?_erase, ha, Option.map_some]
+  · obtain ⟨⟨s, hs⟩, _⟩ := (ef.str hk').erase
+    exact plugin_returns (b108_total _ env.blind s hs) (pos "Str" hk' (by simp))
+  · exact plugin_returns (b110_total _ _ hcfg.tryPass) (pos "ExceptHandler" hk' (by simp))
+  · exact plugin_returns (b112_total _ _ hcfg.tryContinue) (pos "ExceptHandler" hk' (by simp))
+  · obtain ⟨c, hc⟩ := ef.call hk'
+    exact plugin_returns (kw_checks_total _ _ (blind_call hc)).1 (pos "Call" hk' (by simp))
+  · exact plugin_returns (simple_checks_total _).2.2.1 (pos "Call" hk' (by simp))
+  · obtain ⟨c, hc⟩ := ef.call hk'
+    exact plugin_returns (kw_checks_total _ _ (blind_call hc)).2 (pos "Call" hk' (by simp))
+  · exact plugin_returns (simple_checks_total _).2.2.2 (pos "Call" hk' (by simp))
+
+theorem shell_return (pc : PluginCfg) (hcfg : ConfigFacts pc) :
+    ∀ c ∈ shellChecks (ShellCfg.ofCfg (pc.get "shell_injection")), c.kinds.contains kind = true → Returns c env := by
+  intro c hc hk
+  simp only [shellChecks, List.mem_cons, List.mem_nil_iff, or_false] at hc
+  have hk' : kind = "Call".toList := by
+    rcases hc with rfl | rfl | rfl | rfl | rfl | rfl | rfl <;> exact kinds_single hk
+  have pos := ef.posd (by rw [hk']; simp)
+  obtain ⟨cv, hcv⟩ := ef.call hk'
+  have hb := blind_call hcv
+  obtain ⟨t2, t3, t4, t5, t6⟩ :=
+    shell_checks_total _ env.blind _ hcfg.shTruthy hcfg.shSub hcfg.shShell hcfg.shNoShell hb
+  rcases hc with rfl | rfl | rfl | rfl | rfl | rfl | rfl
+  · exact plugin_returns t2 pos
+  · exact plugin_returns t3 pos
+  · exact plugin_returns t4 pos
+  · exact plugin_returns t5 pos
+  · exact plugin_returns t6 pos
+  · exact plugin_returns (b607_total _ _ _ hcfg.shSub hcfg.shShell hcfg.shNoShell hb) pos
+  · exact plugin_returns (b609_total _ _ _ hb) pos
+
+theorem crypto_return (T : CryptoTables) (hT : keyTablesOK T = true) (pc : PluginCfg) (hcfg : ConfigFacts pc) :
+    ∀ c ∈ cryptoChecks T pc, c.kinds.contains kind = true → Returns c env := by
+  intro c hc hk
+  simp only [cryptoChecks, List.mem_cons, List.mem_nil_iff, or_false] at hc
+  obtain ⟨bad, hbad, hcont⟩ := hcfg.ssl
+  obtain ⟨t, ht⟩ := hcfg.weakKey
+  rcases hc with rfl | rfl | rfl | rfl | rfl | rfl | rfl | rfl | rfl | rfl <;> have hk' := kinds_single hk
+  case inr.inr.inr.inr.inl =>
+    exact plugin_returns (b503_total _ _ bad hbad hcont) (ef.posd (by rw [hk']; simp))
+  all_goals
+    have pos := ef.posd (by rw [hk']; simp)
+    obtain ⟨cv, hcv⟩ := ef.call hk'
+    have hb := blind_call hcv
+  · exact plugin_returns (b113_total _ _ _ hb) pos
+  · exact plugin_returns (b324_total _ _ _ hb) pos
+  · exact plugin_returns (b501_total _ _ _ hb) pos
+  · exact plugin_returns (b502_total _ _ _ bad hb hbad) pos
+  · exact plugin_returns (b504_total _ _ hb) pos
+  · exact plugin_returns (b505_total _ _ t _ _ hb hT ht) pos
+  · exact plugin_returns (b507_total _ _ hb) pos
+  · exact plugin_returns (b508_total _ _ hb) pos
+  · exact plugin_returns (b509_total _ _ hb) pos
+
+theorem trojan_return (table : List Char) :
+    ∀ c ∈ trojanChecks table, c.kinds.contains kind = true → Returns c env := by
+  intro c hc hk
+  simp only [trojanChecks, List.mem_cons, List.mem_nil_iff, or_false] at hc
+  subst hc
+  have hk' := kinds_single hk
+  exact plugin_returns (b613_total _ _) (ef.posd (by rw [hk']; simp))
+
+theorem inject_return (T : InjTables) (pc : PluginCfg) (hcfg : ConfigFacts pc) :
+    ∀ c ∈ injectChecksWith T pc, c.kinds.contains kind = true → Returns c env := by
+  intro c hc hk
+  simp only [injectChecksWith, List.mem_cons, List.mem_nil_iff, or_false] at hc
+  obtain ⟨kvs, hm, hm1, hm2⟩ := hcfg.markup
+  rcases hc with rfl | rfl | rfl | rfl | rfl | rfl | rfl | rfl | rfl <;> have hk' := kinds_single hk
+  case inl =>
+    obtain ⟨⟨s, hs⟩, ⟨p, hp⟩, _, _, hattr, hjoin⟩ := ef.str hk'
+    exact pluginPos_returns (b608_total T env s p hs hp (hattr p hp) (hjoin p hp)) (ef.posd (by rw [hk']; simp))
+  all_goals
+    have pos := ef.posd (by rw [hk']; simp)
+    obtain ⟨cv, hcv⟩ := ef.call hk'
+    have hb := blind_call hcv
+  · exact plugin_returns (b610_total _ _ _ hb) pos
+  · exact plugin_returns (b611_total _ _ hb) pos
+  · exact plugin_returns (b701_total _) pos
+  · obtain ⟨p, B, hp, hbody, hd, hB⟩ := ef.xss hk'
+    exact pluginPos_returns (b703_total T env cv B p hcv hp hbody hd hB) pos
+  · rw [hm]
+    exact plugin_returns (b704_total _ kvs _ _ hb hm1 hm2) pos
+  · exact plugin_returns (b506_total _ _ hb) pos
+  · exact plugin_returns (b614_total _ _ hb) pos
+  · exact plugin_returns (b202_total _ _ hb) pos
+
+end Groups
+
+theorem blacklist_return (t' : BlTables) {bc : Check} (hb : blacklistCheck t' = some bc) (env : Env)
+    (hcall : env.v.node.isKind "Call" = true → ∃ c, env.v.node.asCall? = some c)
+    (hpos : (env.v.node.isKind "Call" || env.v.node.isKind "Import" || env.v.node.isKind "ImportFrom") = true →
+      env.ctx.lineno.isSome = true ∧ env.ctx.col.isSome = true) : Returns bc env := by
+  unfold blacklistCheck at hb
+  split at hb
+  · cases hb
+  · simp only [Option.some.injEq] at hb
+    subst hb
+    show ∃ r, blacklistRun t' env.blind = .ok r ∧ _
+    have hwf : env.blind.node.isKind "Call" = true → ∃ c, env.blind.node.asCall? = some c := by
+      intro hk
+      have hk' : env.v.node.isKind "Call" = true := by
+        simpa [Env.blind, Env.node, Visit.erase] using hk
+      obtain ⟨c, hc⟩ := hcall hk'
+      exact ⟨c.erase, blind_call hc⟩
+    obtain ⟨r, hr⟩ := blacklist_total t' env.blind hwf
+    refine ⟨r, hr, ?_⟩
+    by_cases hk : (env.v.node.isKind "Call" || env.v.node.isKind "Import" || env.v.node.isKind "ImportFrom") = true
+    · exact Or.inr (hpos hk)
+    · left
+      simp only [Bool.or_eq_true, not_or, Bool.not_eq_true] at hk
+      obtain ⟨⟨h1, h2⟩, h3⟩ := hk
+      have : blacklistRun t' env.blind = .ok none := by
+        simp only [blacklistRun, Env.blind, Env.node, Visit.erase, Node.erase_isKind, h1, h2, h3, Bool.false_eq_true,
+          if_false, Bool.or_self, pure, Except.pure]
+      rw [this] at hr
+      cases hr; rfl
+
+theorem blacklist_return_visit (t' : BlTables) {bc : Check} (hb : blacklistCheck t' = some bc)
+    {v : Visit} {kind : Str} {ctx : Ctx} (vf : VisitFacts v kind ctx) (st : VState) :
+    Returns bc { v := v, st := st, ctx := ctx } := by
+  refine blacklist_return t' hb _ (fun hk => ?_) (fun hk => ?_)
+  · obtain ⟨f, hf⟩ := Option.isSome_iff_exists.mp (vf.nf.func hk)
+    exact ⟨⟨v.node, f, v.node.kidList "args", v.node.kidList "keywords"⟩,
+      by simp only [Node.asCall?, hk, if_true, hf]⟩
+  · have hp : v.node.pos.isSome = true := by
+      apply vf.nf.pos
+      simp only [Bool.or_eq_true] at hk
+      rcases hk with (h | h) | h <;> (simp only [Node.isKind, beq_iff_eq] at h; rw [h]; decide)
+    show ctx.lineno.isSome = true ∧ ctx.col.isSome = true
+    rw [vf.line.1, vf.line.2]
+    simp [Node.line?, Node.col?, hp]
+
+/-- **Every registered check returns** — plugin or blacklist, whatever the `-t`/`-s` filter keeps —
+on every visited node of a well-shaped tree, under well-formed settings, in every visitor state; and
+when it reports, the context carries the line and column the tester needs. -/
+theorem checks_return_visit (pc : PluginCfg) (fileName : Str) (t : BlTables) (keep : Str → Bool)
+    (hcfg : configOK pc = true) {root : Node} (hwf : TreeShapeOK root) {v : Visit} (hv : v ∈ visits root)
+    {kind : Str} {ctx : Ctx} (hd : dispatch v = some (kind, ctx)) (st : VState) :
+    ∀ c ∈ testSet pc fileName t keep, c.kinds.contains kind = true → Returns c { v := v, st := st, ctx := ctx } := by
+  intro c hc hk
+  have cf := configFacts_of_configOK hcfg
+  have vf := visitFacts hwf hv hd
+  have ef := envFacts_of_visit vf st
+  simp only [testSet, List.mem_append, List.mem_filter, Option.mem_toList, Option.mem_def] at hc
+  rcases hc with ⟨hc, _⟩ | hc
+  · simp only [pluginChecks, List.mem_append] at hc
+    rcases hc with (((hc | hc) | hc) | hc) | hc
+    · exact misc_return ef pc fileName cf c hc hk
+    · exact shell_return ef pc cf c hc hk
+    · exact crypto_return ef _ gen_keyTablesOK pc cf c hc hk
+    · exact trojan_return ef _ c hc hk
+    · exact inject_return ef _ pc cf c hc hk
+  · exact blacklist_return_visit _ hc vf st
+
+/-- … and on the `File` context -/
+theorem checks_return_file (pc : PluginCfg) (fileName : Str) (t : BlTables) (keep : Str → Bool)
+    (hcfg : configOK pc = true) (st : VState) (lines : List Str) :
+    ∀ c ∈ testSet pc fileName t keep, c.kinds.contains "File".toList = true →
+      Returns c { v := ⟨[], fileNode, none⟩, st := st, ctx := fileCtx, lines := lines } := by
+  intro c hc hk
+  have cf := configFacts_of_configOK hcfg
+  have ef := envFacts_file st lines
+  simp only [testSet, List.mem_append, List.mem_filter, Option.mem_toList, Option.mem_def] at hc
+  rcases hc with ⟨hc, _⟩ | hc
+  · simp only [pluginChecks, List.mem_append] at hc
+    rcases hc with (((hc | hc) | hc) | hc) | hc
+    · exact misc_return ef pc fileName cf c hc hk
+    · exact shell_return ef pc cf c hc hk
+    · exact crypto_return ef _ gen_keyTablesOK pc cf c hc hk
+    · exact trojan_return ef _ c hc hk
+    · exact inject_return ef _ pc cf c hc hk
+  · exact blacklist_return _ hc _ (fun hk => absurd (show fileNode.isKind "Call" = true from hk) (by decide)) (fun _ => ⟨rfl, rfl⟩)
+
+/-- **C06, the whole scan.**  On a tree with the shape CPython gives every parsed module
+(`TreeShapeOK`) and with settings as the default generator emits them (`configOK`), no check of the
+test set — for any profile filter `keep`, any blacklist data `t`, any nosec map, any file text —
+produces an internal-error event: `crashesOf (scanFile …) = []`.  B703 included: its recursion budget
+is shown to suffice, so the model's `RecursionError` outcome cannot occur either. -/
+theorem scan_no_crash (pc : PluginCfg) (fileName : Str) (t : BlTables) (keep : Str → Bool) (inp : FileInput)
+    (hwf : TreeShapeOK inp.root) (hcfg : configOK pc = true) :
+    crashesOf (scanFile (testSet pc fileName t keep) inp) = [] := by
+  apply crashesOf_eq_nil
+  intro ev hev
+  simp only [scanFile, List.mem_append] at hev
+  rcases hev with hev | hev
+  · obtain ⟨v, hv, s', hrv⟩ := mem_scanVisits hev
+    unfold runVisit at hrv
+    cases hd : dispatch v with
+    | none => simp [hd] at hrv
+    | some kc =>
+      obtain ⟨kind, ctx⟩ := kc
+      simp only [hd, List.mem_flatMap, checksFor, List.mem_filter] at hrv
+      obtain ⟨c, ⟨hc, hk⟩, hrc⟩ := hrv
+      exact runCheck_no_crash _ _ c (checks_return_visit pc fileName t keep hcfg hwf hv hd s' c hc hk) ev hrc
+  · simp only [List.mem_flatMap, checksFor, List.mem_filter] at hev
+    obtain ⟨c, ⟨hc, hk⟩, hrc⟩ := hev
+    exact runCheck_no_crash _ _ c (checks_return_file pc fileName t keep hcfg _ _ c hc hk) ev hrc
+
+/-! ## Non-vacuity -/
+
+/-- ```
+import os
+def f(a, pw="x"):
+    os.system("ls")
+    try: pass
+    except Exception: pass
+    if a.b == "s": pass
+``` -/
+def sampleTree : Node :=
+  let P (l c ec : Nat) : Option Pos := some ⟨l, l, c, ec⟩
+  let load : Node := .mk "Load".toList none [] []
+  let name (s : String) (l c : Nat) : Node :=
+    .mk "Name".toList (P l c (c + s.length)) [("id".toList, Atom.str s.toList)] [("ctx".toList, false, [load])]
+  let str (s : String) (l c : Nat) : Node :=
+    .mk "Constant".toList (P l c (c + s.length + 2)) [("value".toList, Atom.str s.toList), ("kind".toList, Atom.none)] []
+  let pass (l c : Nat) : Node := .mk "Pass".toList (P l c (c + 4)) [] []
+  .mk "Module".toList none [] [
+    ("body".toList, true, [
+      .mk "Import".toList (P 1 0 9) [] [("names".toList, true,
+        [.mk "alias".toList (P 1 7 9) [("name".toList, Atom.str "os".toList), ("asname".toList, Atom.none)] []])],
+      .mk "FunctionDef".toList (some ⟨2, 6, 0, 25⟩) [("name".toList, Atom.str "f".toList)] [
+        ("args".toList, false, [.mk "arguments".toList none [] [
+          ("posonlyargs".toList, true, []),
+          ("args".toList, true, [
+            .mk "arg".toList (P 2 6 7) [("arg".toList, Atom.str "a".toList)] [],
+            .mk "arg".toList (P 2 9 11) [("arg".toList, Atom.str "pw".toList)] []]),
+          ("kwonlyargs".toList, true, []), ("kw_defaults".toList, true, []),
+          ("defaults".toList, true, [str "x" 2 12])]]),
+        ("body".toList, true, [
+          .mk "Expr".toList (P 3 4 19) [] [("value".toList, false, [
+            .mk "Call".toList (P 3 4 19) [] [
+              ("func".toList, false, [
+                .mk "Attribute".toList (P 3 4 13) [("attr".toList, Atom.str "system".toList)]
+                  [("value".toList, false, [name "os" 3 4]), ("ctx".toList, false, [load])]]),
+              ("args".toList, true, [str "ls" 3 14]),
+              ("keywords".toList, true, [])]])],
+          .mk "Try".toList (some ⟨4, 5, 4, 26⟩) [] [
+            ("body".toList, true, [pass 4 9]),
+            ("handlers".toList, true, [
+              .mk "ExceptHandler".toList (P 5 4 26) [("name".toList, Atom.none)] [
+                ("type".toList, false, [name "Exception" 5 11]),
+                ("body".toList, true, [pass 5 22])]]),
+            ("orelse".toList, true, []), ("finalbody".toList, true, [])],
+          .mk "If".toList (P 6 4 23) [] [
+            ("test".toList, false, [
+              .mk "Compare".toList (P 6 7 17) [] [
+                ("left".toList, false, [
+                  .mk "Attribute".toList (P 6 7 10) [("attr".toList, Atom.str "b".toList)]
+                    [("value".toList, false, [name "a" 6 7]), ("ctx".toList, false, [load])]]),
+                ("ops".toList, true, [.mk "Eq".toList none [] []]),
+                ("comparators".toList, true, [str "s" 6 14])]]),
+            ("body".toList, true, [pass 6 19]),
+            ("orelse".toList, true, [])]]),
+        ("decorator_list".toList, true, [])]]),
+    ("type_ignores".toList, true, [])]
+
+/-- non-vacuity: a concrete module has the shape `scan_no_crash` asks for … -/
+example : TreeShapeOK sampleTree := by decide +kernel
+
+/-- … the generated default settings are well-formed … -/
+example : configOK Gen.pluginDefaults = true := by decide +kernel
+
+/-- … a `Call` that lost its `func`, or an unpositioned one, does not -/
+example : ¬ TreeShapeOK (.mk "Module".toList none [] [("body".toList, true,
+    [.mk "Expr".toList (some ⟨1, 1, 0, 3⟩) [] [("value".toList, false,
+      [.mk "Call".toList (some ⟨1, 1, 0, 3⟩) [] [("args".toList, true, []), ("keywords".toList, true, [])]])]])]) := by
+  decide +kernel
+
+example (t : BlTables) (keep : Str → Bool) (nm : NosecMap) (lines : List Str) :
+    crashesOf (scanFile (testSet Gen.pluginDefaults "m.py".toList t keep) ⟨sampleTree, nm, lines⟩) = [] :=
+  scan_no_crash _ _ t keep _ (show TreeShapeOK sampleTree by decide +kernel) (by decide +kernel)
 
 end Props.C06
